@@ -29,6 +29,17 @@ type l1Side struct {
 	discards map[int][][]L1Op // groups; each group runs on one branch that is thrown away
 	reenter  map[int]bool
 	nested   map[int]string
+	// reenterDep[i]: while the sender -> escrow transfer of deposit op i runs, this deposit is submitted
+	// through the msg server from inside the transfer; nestedDep[i]: what it returned
+	reenterDep map[int]L1Op
+	nestedDep  map[int]*nestedDeposit
+}
+
+type nestedDeposit struct {
+	Op      L1Op
+	Reached bool
+	OK      bool
+	Seq     uint64
 }
 
 var l1Sides = map[*L1Case]*l1Side{}
@@ -36,7 +47,7 @@ var l1Sides = map[*L1Case]*l1Side{}
 func sideOf(c *L1Case) *l1Side {
 	s := l1Sides[c]
 	if s == nil {
-		s = &l1Side{discards: map[int][][]L1Op{}, reenter: map[int]bool{}, nested: map[int]string{}}
+		s = &l1Side{discards: map[int][][]L1Op{}, reenter: map[int]bool{}, nested: map[int]string{}, reenterDep: map[int]L1Op{}, nestedDep: map[int]*nestedDeposit{}}
 		l1Sides[c] = s
 	}
 	return s
@@ -47,6 +58,11 @@ type reentryState struct {
 	msg     *ophosttypes.MsgFinalizeTokenWithdrawal
 	escrow  sdk.AccAddress
 	verdict string
+	// nested deposit
+	depArmed       bool
+	depMsg         *ophosttypes.MsgInitiateTokenDeposit
+	depFrom, depTo sdk.AccAddress
+	depRes         nestedDeposit
 }
 
 var reentries = map[*L1Env]*reentryState{}
@@ -62,6 +78,13 @@ func installReentry(e *L1Env) {
 				st.verdict = "accepted"
 			} else {
 				st.verdict = "rejected"
+			}
+		}
+		if st.depArmed && from.Equals(st.depFrom) && to.Equals(st.depTo) {
+			st.depArmed = false
+			st.depRes.Reached = true
+			if resp, err := e.Msg.InitiateTokenDeposit(ctx, st.depMsg); err == nil {
+				st.depRes.OK, st.depRes.Seq = true, resp.Sequence
 			}
 		}
 		return to, nil
@@ -83,13 +106,43 @@ func execWith(c *L1Case, side *l1Side, i int, o L1Op, do func(L1Op) ExecResult) 
 	if side.reenter[i] && st != nil {
 		st.armed, st.msg, st.escrow, st.verdict = true, finalizeMsgOf(o), ophosttypes.BridgeAddress(o.Bridge), "not-reached"
 	}
+	nd, hasDep := side.reenterDep[i]
+	if hasDep && st != nil {
+		from, _ := e.AK.AddressCodec().StringToBytes(o.Sender)
+		st.depArmed, st.depFrom, st.depTo, st.depRes = true, from, ophosttypes.BridgeAddress(o.Bridge), nestedDeposit{Op: nd}
+		st.depMsg = &ophosttypes.MsgInitiateTokenDeposit{Sender: nd.Sender, BridgeId: nd.Bridge, To: nd.To, Amount: coinOf(nd.Denom, nd.Amt), Data: nd.Data}
+	}
 	r := do(o)
 	if side.reenter[i] && st != nil {
 		st.armed = false
 		side.nested[i] = st.verdict
 	}
+	if hasDep && st != nil {
+		st.depArmed = false
+		res := st.depRes
+		if !r.OK { // the outer message failed: whatever the nested call did was discarded with it
+			res.OK = false
+		}
+		side.nestedDep[i] = &res
+	}
 	return r
 }
+
+// DepositReentrant executes the deposit `outer` and, from inside its sender -> escrow transfer, the
+// deposit `nested` (a receiver-side hook / send restriction re-entering the msg server)
+func (sc *L1Scenario) DepositReentrant(outer, nested L1Op) ExecResult {
+	sc.reg(outer.Sender, nested.Sender)
+	side := sideOf(sc.Case)
+	k := len(sc.Case.Ops)
+	side.reenterDep[k] = sc.op(nested)
+	saved := side.discards[k]
+	side.discards[k] = nil
+	r := execWith(sc.Case, side, k, sc.op(outer), sc.Case.Do)
+	side.discards[k] = saved
+	return r
+}
+
+func (s *l1Side) monitorOnly() bool { return s != nil && len(s.reenterDep) > 0 }
 
 // Discarded executes ops on a branch of the current state and throws the branch away
 func (sc *L1Scenario) Discarded(ops ...L1Op) {
@@ -330,7 +383,7 @@ func runL1TwicePrep(seed uint64, id int, prep func(sc *L1Scenario), build L1Buil
 	sc2.Case.Bals = nil
 	sc2.Case.Snapshot() // with the final tracked account list
 	side1, side2 := sideOf(sc.Case), sideOf(sc2.Case)
-	side2.discards, side2.reenter = side1.discards, side1.reenter
+	side2.discards, side2.reenter, side2.reenterDep = side1.discards, side1.reenter, side1.reenterDep
 	for i, o := range sc.Case.Ops {
 		r := execWith(sc2.Case, side2, i, o, sc2.Case.DoObs)
 		if r.OK != sc.Case.Results[i].OK {
@@ -468,8 +521,6 @@ func runMoneyStream(cfg MoneyStream, seed uint64, tier string, outdir string) *R
 		for _, m := range cfg.Monitors {
 			m(rep, c)
 		}
-		delete(l1Sides, c)
-		delete(reentries, c.Env)
 		rep.Ops += len(c.Ops)
 		rep.CountCase(strings.Join(l1OpsHuman(c.Ops), "\n"), len(okKinds) >= 2 && len(errKinds) >= 1 && okKinds[cfg.mainKind()] && errKinds[cfg.mainKind()])
 		if len(rep.Samples) < 2 {
@@ -479,7 +530,13 @@ func runMoneyStream(cfg MoneyStream, seed uint64, tier string, outdir string) *R
 			}
 			rep.Sample(map[string]interface{}{"kind": "L1 history (first ops)", "ops": l1OpsHuman(c.Ops[:n])})
 		}
-		texts = append(texts, c.Coq())
+		if sd := l1Sides[c]; sd.monitorOnly() {
+			rep.Hist("case:monitor-only(nested deposit)")
+		} else {
+			texts = append(texts, c.Coq())
+		}
+		delete(l1Sides, c)
+		delete(reentries, c.Env)
 	}
 	for si, s := range cfg.Scripts {
 		s := s
@@ -509,6 +566,9 @@ func runMoneyStream(cfg MoneyStream, seed uint64, tier string, outdir string) *R
 	if cfg.Extra != nil {
 		cfg.Extra(emit, ti)
 	}
+	if n := rep.Histogram["case:monitor-only(nested deposit)"]; n > 0 {
+		rep.Notes = append(rep.Notes, fmt.Sprintf("%d of the %d cases contain deposits submitted from inside another deposit's bank transfer; the model has no nested execution, so these cases are evaluated by the monitors only and are not among the model-compared case files (%d)", n, rep.Cases, len(texts)))
+	}
 	writeShards(outdir, cfg.Prop, l1CaseHeader, "run_l1case", "l1case", texts, 16, rep)
 	return rep
 }
@@ -529,6 +589,9 @@ func l1Violate(rep *Report, c *L1Case, i int, sig, what string) {
 		for k := 0; k <= i; k++ {
 			for _, g := range side.discards[k] {
 				extra[fmt.Sprintf("before step %d, executed on a discarded state branch", k)] = l1OpsHuman(g)
+			}
+			if nd := side.nestedDep[k]; nd != nil {
+				extra[fmt.Sprintf("step %d (nested)", k)] = fmt.Sprintf("while the sender -> escrow transfer of this deposit ran, this deposit was submitted from inside the transfer: %s; reached=%v accepted=%v returned sequence %d", l1OpsHuman([]L1Op{nd.Op})[0], nd.Reached, nd.OK, nd.Seq)
 			}
 			if side.reenter[k] {
 				extra[fmt.Sprintf("step %d", k)] = "executed with a bank send restriction that submits the same message once more from inside the payout transfer; nested verdict: " + side.nested[k]
